@@ -170,6 +170,39 @@ pub fn ctor_variant_events(cls: &str) -> Vec<Value> {
     evs
 }
 
+/// C04 on packets that have no wire form of their own (an extended response code without an OPT record to carry
+/// its upper bits): whatever the serialisers write for them must still be a well-framed message.
+pub fn framed_events(cls: &str) -> Vec<Value> {
+    use simple_dns::rdata::{RData, A};
+    use simple_dns::{Name, Question, ResourceRecord, CLASS, RCODE, TYPE};
+    let mut evs = vec![];
+    let body = |p: &mut Packet<'static>| {
+        p.questions.push(Question::new(Name::new_unchecked("q.example"), TYPE::A.into(), CLASS::IN.into(), false));
+        p.answers.push(ResourceRecord::new(Name::new_unchecked("q.example"), CLASS::IN, 5, RData::A(A { address: 0x01020304 })));
+        p.additional_records.push(ResourceRecord::new(Name::new_unchecked("x.q.example"), CLASS::IN, 6, RData::A(A { address: 0x05060708 })));
+    };
+    // (1) BADVERS set on a packet that never had an OPT record
+    let mut p = Packet::new_reply(9);
+    body(&mut p);
+    *p.rcode_mut() = RCODE::BADVERS;
+    evs.push(("badvers-without-opt".to_string(), p));
+    // (2) a received message whose OPT carries upper rcode bits (named and unassigned), OPT then removed
+    for hi in [1u8, 2, 128, 255] {
+        let mut m = vec![0, 9, 0x80, 0x03, 0, 0, 0, 0, 0, 0, 0, 1];
+        m.extend([0, 0, 41, 4, 0xd0, hi, 0, 0, 0, 0, 0]);
+        let bytes: &'static [u8] = Box::leak(m.into_boxed_slice());
+        if let Ok(mut q) = Packet::parse(bytes) {
+            *q.opt_mut() = None;
+            body(&mut q);
+            evs.push((format!("parsed-ext-rcode-hi={hi}-opt-removed"), q));
+        }
+    }
+    evs.into_iter()
+        .map(|(how, p)| json!({"ev": "Framed", "cls": format!("{cls} framed {how}"), "outs": [build_out(&p, false), build_out(&p, true)],
+            "counts": [p.questions.len(), p.answers.len(), p.name_servers.len(), p.additional_records.len()]}))
+        .collect()
+}
+
 /// C11: for bytes the parser accepts: re-serialise both ways and parse again
 pub fn reparse_event(cls: &str, b: &[u8]) -> Option<Value> {
     let parsed = guarded(|| Packet::parse(b).ok().map(|p| (project_packet(&p), build_out(&p, false), build_out(&p, true))));
